@@ -156,6 +156,16 @@ def main():
     import logging
 
     logging.disable(logging.CRITICAL)
+    if job.get("log_level"):
+        # the application configured logging: records are really formatted, nothing is kept
+        class Sink(logging.Handler):
+            def emit(self, record):
+                self.format(record)
+
+        logging.disable(logging.NOTSET)
+        root = logging.getLogger()
+        root.handlers[:] = [Sink()]
+        root.setLevel(getattr(logging, job["log_level"]))
     for modname in job["import_order"]:
         importlib.import_module(modname)
     import func_adl
